@@ -137,12 +137,17 @@ def job_recompile_loaded(job):
         accepted = True
     except Exception as e:
         accepted = False
+    try:
+        code = h.get_c_code()
+        codegen = "returned %d lines" % len(code.splitlines())
+    except Exception as e:
+        codegen = None
     after = compiled.forward(h, rows)
     again = compiled.forward(CM.CompiledLogicNet.load(job["path"], (5,), k, job["W"], **({} if k else {"output_size": 6})), rows)
     second = None
     if accepted and not job["same_path"] and os.path.exists(target):
         second = compiled.forward(CM.CompiledLogicNet.load(target, (5,), k, job["W"], **({} if k else {"output_size": 6})), rows)
-    say({"accepted": accepted, "before": before, "after": after, "reloaded": again, "second": second})
+    say({"accepted": accepted, "before": before, "after": after, "reloaded": again, "second": second, "codegen": codegen})
     say({"done": True})
 
 
@@ -189,6 +194,35 @@ def job_concurrent_save(job):
         if errs:
             break
     say({"rounds": rounds, "errors": errs[:4]})
+    say({"done": True})
+
+
+def job_unique_at_scale(job):
+    """'unique' wiring of a convolution with many input channels, under an address-space limit: the number of possible pairs
+    (1.7e8 for 2048 channels and a 3x3 field) must not be materialised."""
+    import resource
+    resource.setrlimit(resource.RLIMIT_AS, (job["limit_gib"] << 30, job["limit_gib"] << 30))
+    from torchlogix.layers import LogicConv2d, LogicConv3d
+    out = {}
+    for name, mk in (("conv2d", lambda: LogicConv2d(in_dim=4, device="cpu", channels=job["channels"], num_kernels=3, tree_depth=3,
+                                                     receptive_field_size=3, connections="unique")),
+                     ("conv3d", lambda: LogicConv3d(in_dim=3, device="cpu", channels=job["channels"], num_kernels=2, tree_depth=2,
+                                                     receptive_field_size=2, connections="random-unique"))):
+        try:
+            torch.manual_seed(5)
+            l = mk()
+            a, b = l.kernel_pairs
+            pairs = [sorted([tuple(u), tuple(v)]) for u, v in zip(a.reshape(-1, a.shape[-1]).tolist(), b.reshape(-1, b.shape[-1]).tolist())]
+            per_kernel = a.shape[1]
+            distinct = all(len({tuple(map(tuple, q)) for q in pairs[k * per_kernel:(k + 1) * per_kernel]}) == per_kernel
+                           for k in range(a.shape[0]))
+            no_self = all(q[0] != q[1] for q in pairs)
+            in_range = int(a[..., -1].max()) < job["channels"] and int(b[..., -1].max()) < job["channels"] and int(a.min()) >= 0 and int(b.min()) >= 0
+            spread = len({q[0][-1] for q in pairs} | {q[1][-1] for q in pairs})          # channels touched
+            out[name] = {"built": True, "distinct": distinct, "no_self": no_self, "in_range": in_range, "channels_touched": spread}
+        except Exception as e:
+            out[name] = {"built": False, "error": repr(e)[:200]}
+    say(out)
     say({"done": True})
 
 
@@ -284,4 +318,4 @@ def rebuild_like(m):
 if __name__ == "__main__":
     job = json.load(open(sys.argv[1]))
     {"history": job_history, "threads": job_threads, "save": job_save, "reload": job_reload,
-     "recompile-loaded": job_recompile_loaded, "concurrent-save": job_concurrent_save}[job["kind_of_job"]](job)
+     "recompile-loaded": job_recompile_loaded, "concurrent-save": job_concurrent_save, "unique-at-scale": job_unique_at_scale}[job["kind_of_job"]](job)
